@@ -11,6 +11,7 @@ import (
 	"os"
 	"path"
 	"path/filepath"
+	"runtime/pprof"
 	"sort"
 	"strconv"
 	"strings"
@@ -204,6 +205,7 @@ type c29Env struct {
 	anomaly  bool
 	cache    map[ulid.ULID]map[sampleKey]float64
 	c        *hlib.Ctx
+	specSeen map[string]int
 }
 
 func discardLogger() *slog.Logger { return slog.New(slog.NewTextHandler(io.Discard, nil)) }
@@ -222,72 +224,123 @@ func (s listSample) Copy() chunks.Sample           { return s }
 
 func sampleValue(series int, t int64) float64 { return float64(10*t + int64(series)) }
 
-// createBlock writes one real TSDB block and uploads it to the raw bucket.
+// preparedBlocks caches the on-disk blocks of a scenario across its runs (crash-free run + one run per crash point):
+// writing a TSDB block costs far more than everything else a run does.  Set up and torn down by genC29.
+var preparedBlocks struct {
+	dir string
+	m   map[string]ulid.ULID
+}
+
 func (e *c29Env) createBlock(b c29Block) (ulid.ULID, error) {
-	var series []storage.Series
+	if e.specSeen == nil {
+		e.specSeen = map[string]int{}
+	}
+	key := fmt.Sprintf("%d:%d:%d:%d", b.min, b.max, b.mask, b.tomb)
+	e.specSeen[key]++
+	key = fmt.Sprintf("%s#%d", key, e.specSeen[key]) // the same spec twice in a scenario = two different blocks
+	if preparedBlocks.dir != "" {
+		if id, ok := preparedBlocks.m[key]; ok {
+			e.noteSamples(b)
+			return id, block.Upload(e.ctx, log.NewNopLogger(), e.raw, filepath.Join(preparedBlocks.dir, id.String()), metadata.NoneFunc)
+		}
+	}
+	id, p, err := e.writeBlock(b)
+	if err != nil {
+		return id, err
+	}
+	if err := block.Upload(e.ctx, log.NewNopLogger(), e.raw, p, metadata.NoneFunc); err != nil {
+		return id, err
+	}
+	if preparedBlocks.dir != "" {
+		dst := filepath.Join(preparedBlocks.dir, id.String())
+		if err := os.Rename(p, dst); err == nil {
+			preparedBlocks.m[key] = id
+			return id, nil
+		}
+	}
+	return id, os.RemoveAll(p)
+}
+
+// noteSamples records the samples a block of this spec holds (same enumeration as writeBlock).
+func (e *c29Env) noteSamples(b c29Block) {
+	for s := 1; s <= 3; s++ {
+		if b.mask&(1<<(s-1)) == 0 {
+			continue
+		}
+		for _, t := range blockTimes(b) {
+			e.original[sampleKey{s, t}] = sampleValue(s, t)
+		}
+	}
+}
+
+func blockTimes(b c29Block) []int64 {
 	n := int64(5)
 	step := (b.max - b.min) / n
 	if step < 1 {
 		step = 1
 	}
+	seen := map[int64]bool{}
+	var ts []int64
+	for t := b.min; t < b.max; t += step {
+		if !seen[t] {
+			seen[t] = true
+			ts = append(ts, t)
+		}
+	}
+	if !seen[b.max-1] {
+		ts = append(ts, b.max-1)
+	}
+	sort.Slice(ts, func(i, j int) bool { return ts[i] < ts[j] })
+	return ts
+}
+
+// writeBlock writes one real TSDB block to local disk.
+func (e *c29Env) writeBlock(b c29Block) (ulid.ULID, string, error) {
+	var series []storage.Series
 	for s := 1; s <= 3; s++ {
 		if b.mask&(1<<(s-1)) == 0 {
 			continue
 		}
 		var smp []chunks.Sample
-		seen := map[int64]bool{}
-		add := func(t int64) {
-			if t >= b.min && t < b.max && !seen[t] {
-				seen[t] = true
-				smp = append(smp, listSample{t: t, v: sampleValue(s, t)})
-			}
-		}
-		for t := b.min; t < b.max; t += step {
-			add(t)
-		}
-		add(b.max - 1)
-		sort.Slice(smp, func(i, j int) bool { return smp[i].T() < smp[j].T() })
-		for _, x := range smp {
-			e.original[sampleKey{s, x.T()}] = x.F()
+		for _, t := range blockTimes(b) {
+			smp = append(smp, listSample{t: t, v: sampleValue(s, t)})
 		}
 		series = append(series, storage.NewListSeries(labels.FromStrings("a", strconv.Itoa(s)), smp))
 	}
+	e.noteSamples(b)
 	bdir := filepath.Join(e.dir, "prepare")
 	if err := os.MkdirAll(bdir, 0o750); err != nil {
-		return ulid.ULID{}, err
+		return ulid.ULID{}, "", err
 	}
 	p, err := tsdb.CreateBlock(series, bdir, b.max-b.min+1, discardLogger())
 	if err != nil {
-		return ulid.ULID{}, err
+		return ulid.ULID{}, "", err
 	}
 	id, err := ulid.Parse(filepath.Base(p))
 	if err != nil {
-		return ulid.ULID{}, err
+		return ulid.ULID{}, "", err
 	}
 	if _, err := metadata.InjectThanos(log.NewNopLogger(), p, metadata.Thanos{
 		Labels:     map[string]string{"ext": "1"},
 		Downsample: metadata.ThanosDownsample{Resolution: 0},
 		Source:     metadata.SidecarSource,
 	}, nil); err != nil {
-		return id, err
+		return id, p, err
 	}
 	m, err := metadata.ReadFromDir(p)
 	if err != nil {
-		return id, err
+		return id, p, err
 	}
 	if m.MinTime != b.min || m.MaxTime != b.max {
-		return id, fmt.Errorf("block range [%d,%d) instead of [%d,%d)", m.MinTime, m.MaxTime, b.min, b.max)
+		return id, p, fmt.Errorf("block range [%d,%d) instead of [%d,%d)", m.MinTime, m.MaxTime, b.min, b.max)
 	}
 	if b.tomb > 0 {
 		m.Stats.NumTombstones = b.tomb
 		if err := m.WriteToDir(log.NewNopLogger(), p); err != nil {
-			return id, err
+			return id, p, err
 		}
 	}
-	if err := block.Upload(e.ctx, log.NewNopLogger(), e.raw, p, metadata.NoneFunc); err != nil {
-		return id, err
-	}
-	return id, os.RemoveAll(p)
+	return id, p, nil
 }
 
 // onMut turns bucket operations into meta-level events.
@@ -789,9 +842,40 @@ func genScenario(c *hlib.Ctx, i int) c29Scenario {
 	return sc
 }
 
+// sweepStale removes scratch directories that a killed earlier run left behind.
+func sweepStale() {
+	for _, base := range []string{"/dev/shm", os.TempDir()} {
+		ms, _ := filepath.Glob(filepath.Join(base, "verif-c29-*"))
+		for _, m := range ms {
+			if st, err := os.Stat(m); err == nil && time.Since(st.ModTime()) > 2*time.Hour {
+				os.RemoveAll(m)
+			}
+		}
+	}
+}
+
 func genC29(c *hlib.Ctx) {
 	r := c.R
-	sets := c.N(7, 120)
+	sweepStale()
+	base := ""
+	if st, err := os.Stat("/dev/shm"); err == nil && st.IsDir() {
+		base = "/dev/shm"
+	}
+	if d, err := os.MkdirTemp(base, "verif-c29-blocks-"); err == nil {
+		preparedBlocks.dir, preparedBlocks.m = d, map[string]ulid.ULID{}
+		defer func() { os.RemoveAll(d); preparedBlocks.dir = "" }()
+	}
+	if pf := os.Getenv("VERIF_PPROF"); pf != "" {
+		if f, err := os.Create(pf); err == nil {
+			if pprof.StartCPUProfile(f) == nil {
+				defer pprof.StopCPUProfile()
+			}
+		}
+	}
+	sets := c.N(6, 120)
+	if c.Tier == "search" {
+		sets = 9
+	}
 	for i := 0; i < sets; i++ {
 		sc := genScenario(c, i)
 		c.Count("scenario:" + sc.name)
@@ -806,10 +890,16 @@ func genC29(c *hlib.Ctx) {
 			continue
 		}
 		c.Count(fmt.Sprintf("crash-points:%d0s", n/10))
-		// every crash point of the first cycle
+		// every crash point of the first cycle (quick tier: at most 8 of them, evenly spread, first and last included)
+		pick := map[int]bool{}
+		if c.Tier == "quick" && n > 8 {
+			for j := 0; j < 8; j++ {
+				pick[1+j*(n-1)/7] = true
+			}
+		}
 		for k := 1; k <= n; k++ {
-			if c.Tier == "quick" && n > 14 && k%2 == 0 && k != n {
-				continue // quick tier: every other crash point of long cycles
+			if len(pick) > 0 && !pick[k] {
+				continue
 			}
 			out := c.Do(sc.op(dd, k, 0), true)
 			c.Count("crash-run")
